@@ -140,6 +140,8 @@ class Ctx:
 
     def ob(self, rule, fn, instance, ok, detail='', site='', what=''):
         fname = fn.name if hasattr(fn, 'name') else str(fn)
+        if rule in getattr(self, 'skip_rules', ()):
+            return ok
         self.obs.append(Ob(self.prop, rule, short_fn(fname), instance, bool(ok), detail, site, what))
         return ok
 
